@@ -202,6 +202,52 @@ let handle kind c =
          end
        | o, _ -> diff (tag "outcome") ~model:"?" ~impl:o)
     done
+  | "weeks" ->
+    (* one run; the expired files end on one date at several instants / zones, or on two dates *)
+    let u = next_cfg c in
+    let cfgv = next_bytes c in
+    let lastweek = next_bytes c in
+    let x = next_n c in
+    let l = next_list c (fun c -> let w = next_bytes c in let f = next_file c in (w, f)) in
+    let remaining = next_int c in
+    let nlabels = next_int c in
+    let model = week_reports true u cfgv lastweek x l in
+    let mdeleted = List.fold_left (fun acc (w, r) ->
+        match r with Some _ -> acc + List.length (week_files w l) | None -> acc) 0 model in
+    if remaining <> List.length l - mdeleted then
+      diff "weeks-count-files-left" ~model:(string_of_int (List.length l - mdeleted)) ~impl:(string_of_int remaining);
+    if nlabels <> List.length model then
+      diff "weeks-labels" ~model:(string_of_int (List.length model)) ~impl:(string_of_int nlabels);
+    for _ = 1 to nlabels do
+      let w = next_bytes c in
+      let outcome = next c in
+      let files = week_files w l in
+      let mr = (match List.assoc_opt w model with Some r -> r | None -> None) in
+      let tag s = "week<" ^ string_of_bytes w ^ ">-" ^ s in
+      (match outcome, mr with
+       | "none", None -> ()
+       | "none", Some _ -> diff (tag "outcome") ~model:"report" ~impl:"none"
+       | ("local" | "both") as o, _ ->
+         let shape = next_bool c in
+         let il = next_report c in
+         if not shape then prop "extra-fields" "a report has members outside the report format";
+         (match mr with
+          | Some (ml, _) -> check_eq (tag "local-report") show_report (norm_report ml) (norm_report il)
+          | None -> diff (tag "outcome") ~model:"none" ~impl:o);
+         report_failures (local_check files il);
+         if o = "both" then begin
+           let iu = next_report c in
+           (match mr with
+            | Some (_, Some mu) -> check_eq (tag "upload-report") show_report (norm_report mu) (norm_report iu)
+            | Some (_, None) -> diff (tag "outcome") ~model:"local only" ~impl:"upload report written"
+            | None -> ());
+           (* the week's report must account for ALL expired files of that date *)
+           report_failures (report_check u files il iu)
+         end else (match mr with
+             | Some (_, Some _) -> diff (tag "outcome") ~model:"upload report written" ~impl:"local only"
+             | _ -> ())
+       | o, _ -> diff (tag "outcome") ~model:"?" ~impl:o)
+    done
   | "runs" ->
     (* the real upload.Run several times in one process; the configuration module publishes versions in between *)
     let nruns = next_int c in
